@@ -132,9 +132,10 @@ var c09HTMLDistinct = []string{"<a\x02>", " a\x02=1", "&#\x02;", "<a\x02 ", "a\x
 
 func init() {
 	fw.Register(&fw.Check{
-		ID:        "C09",
-		QuickS:    90,
-		ThoroughS: 900,
+		ID:              "C09",
+		PanicOutOfScope: true,
+		QuickS:          90,
+		ThoroughS:       900,
 		Rule: "every repetition family opener + unit^k for every unit over the 47 SQL / 33 HTML state-changing symbols and keyword/markup atoms of length <=2 (quick) / <=3 (thorough) x 10 (SQL) / 14 (HTML) openers, at 4 KB, 16 KB and 64 KB, through the auto-instrumented build: " +
 			"deterministic work(64K) <= 6*work(16K) <= 36*work(4K) (linear = 4, quadratic = 16) and work <= 2000*|s| + 1e5 (enforced as a budget, so a blow-up stops early); wall-clock is recorded, never judged; every family is one state with three transitions",
 		Assumptions: []string{
